@@ -66,10 +66,30 @@ func lambdaOf(w *world, n *Node) *compose.Lambda {
 	return perPair[n.In][n.Out].inv(rt)
 }
 
+// nestedOf: the nested graph of a kSub node: START→(invokable lambda In→Out)→END.
+func nestedOf(w *world, n *Node) compose.AnyGraph {
+	sub := perPair[n.In][n.Out].front(feGraph, false)
+	inner := *n
+	inner.Kind = kInv
+	if err := sub.b.AddLambdaNode("inner", lambdaOf(w, &inner)); err != nil {
+		panic("harness: nested graph: " + err.Error())
+	}
+	if err := sub.b.AddEdge(compose.START, "inner"); err != nil {
+		panic("harness: nested graph: " + err.Error())
+	}
+	if err := sub.b.AddEdge("inner", compose.END); err != nil {
+		panic("harness: nested graph: " + err.Error())
+	}
+	return sub.any
+}
+
 func addNode(h *gHandle, w *world, n *Node) error {
 	opts := nodeOpts(w, n, true)
-	if n.Kind == kPass {
+	switch n.Kind {
+	case kPass:
 		return h.b.AddPassthroughNode(n.Key, opts...)
+	case kSub:
+		return h.b.AddGraphNode(n.Key, nestedOf(w, n), opts...)
 	}
 	return h.b.AddLambdaNode(n.Key, lambdaOf(w, n), opts...)
 }
@@ -159,9 +179,12 @@ func buildChain(s *Spec, b *built, h *gHandle) bool {
 		case 0:
 			n := s.node(e.Keys[0])
 			opts := append(nodeOpts(b.w, n, true), compose.WithNodeKey(n.Key))
-			if n.Kind == kPass {
+			switch n.Kind {
+			case kPass:
 				h.ch.AppendPassthrough(opts...)
-			} else {
+			case kSub:
+				h.ch.AppendGraph(nestedOf(b.w, n), opts...)
+			default:
 				h.ch.AppendLambda(lambdaOf(b.w, n), opts...)
 			}
 		case 1:
@@ -169,9 +192,12 @@ func buildChain(s *Spec, b *built, h *gHandle) bool {
 			for _, k := range e.Keys {
 				n := s.node(k)
 				opts := append(nodeOpts(b.w, n, false), compose.WithNodeKey(n.Key))
-				if n.Kind == kPass {
+				switch n.Kind {
+				case kPass:
 					p.AddPassthrough(n.OutKey, opts...)
-				} else {
+				case kSub:
+					p.AddGraph(n.OutKey, nestedOf(b.w, n), opts...)
+				default:
 					p.AddLambda(n.OutKey, lambdaOf(b.w, n), opts...)
 				}
 			}
@@ -182,9 +208,12 @@ func buildChain(s *Spec, b *built, h *gHandle) bool {
 			for _, k := range e.Keys {
 				n := s.node(k)
 				opts := append(nodeOpts(b.w, n, true), compose.WithNodeKey(n.Key))
-				if n.Kind == kPass {
+				switch n.Kind {
+				case kPass:
 					cb.AddPassthrough(n.Key, opts...)
-				} else {
+				case kSub:
+					cb.AddGraph(n.Key, nestedOf(b.w, n), opts...)
+				default:
 					cb.AddLambda(n.Key, lambdaOf(b.w, n), opts...)
 				}
 			}
@@ -212,9 +241,12 @@ func buildWorkflow(s *Spec, a attempt, b *built, h *gHandle) bool {
 	for _, i := range idx {
 		n := &s.Nodes[i]
 		opts := nodeOpts(b.w, n, true)
-		if n.Kind == kPass {
+		switch n.Kind {
+		case kPass:
 			wn[n.Key] = h.wf.AddPassthroughNode(n.Key, opts...)
-		} else {
+		case kSub:
+			wn[n.Key] = h.wf.AddGraphNode(n.Key, nestedOf(b.w, n), opts...)
+		default:
 			wn[n.Key] = h.wf.AddLambdaNode(n.Key, lambdaOf(b.w, n), opts...)
 		}
 	}
@@ -317,7 +349,7 @@ func variants(s *Spec) int {
 				v = l
 			}
 		}
-		if n.Nil && v < 2 {
+		if n.emitsNil() && v < 2 {
 			v = 2
 		}
 		for _, h := range [][2]int{{n.Pre, n.PreConv}, {n.Post, n.PostConv}} {
@@ -361,7 +393,7 @@ func paramsFor(s *Spec, k runKey) *runParams {
 		}
 		lv := legalValues(n.Out)
 		p.outVal[n.Key] = values[lv[(k.Variant*3+k.In+i)%len(lv)]]
-		if n.Nil && isIface(n.Out) && (k.Variant+i)%2 == 1 {
+		if n.emitsNil() && (k.Variant+i)%2 == 1 {
 			p.outVal[n.Key] = nil
 		}
 	}
